@@ -17,7 +17,8 @@ theorem TLoc_transfer {σ σ' : St} {y : Th} (L : TLoc σ y)
     (hslng : y.creating → y.ng ∈ σ.sl → y.ng ∈ σ'.sl)
     (hclg : y.pc ≠ .idle → ∀ s, y.g ∈ σ.cl s → y.g ∈ σ'.cl s)
     (hclng : y.creating → ∀ s, y.ng ∈ σ.cl s → y.ng ∈ σ'.cl s)
-    (hnil : y.pc ≠ .idle → ∀ s, (s = y.s ∨ s = y.ns) → σ.cl s = [] → σ'.cl s = [])
+    (hnilr : y.pc.remPC = true → σ.cl y.s = [] → σ.est y.s = true → σ'.cl y.s = [])
+    (hnila : y.pc.addPC = true → σ.cl y.ns = [] → σ'.cl y.ns = [])
     (hest : σ.est y.s = true → σ'.est y.s = true)
     (hsing : y.pc ≠ .idle → σ.cl y.s = [y.g] → σ'.cl y.s = [y.g]) : TLoc σ' y := by
   obtain ⟨l1, l2, l3, l4, l5, l6, ls, l7, l8, l9, l10, l11, l12, l13, l14, l15, l16, l17, l18, l19, l20⟩ := L
@@ -56,19 +57,19 @@ theorem TLoc_transfer {σ σ' : St} {y : Th} (L : TLoc σ y)
     exact ⟨hclg hi _ a, b, c, d, e, f⟩
   · intro h
     have hi : y.pc ≠ .idle := by rw [h]; simp
-    exact hslg hi (l14 h)
+    rw [hg hi]; exact ⟨hslg hi (l14 h).1, (l14 h).2⟩
   · intro h
     have hi : y.pc ≠ .idle := by rcases h with h | h <;> (rw [h]; simp)
-    exact hclg hi _ (l15 h)
+    rw [hg hi]; exact ⟨hclg hi _ (l15 h).1, (l15 h).2⟩
   · intro h
     have hi := ni_of_true h rfl
     obtain ⟨a, b⟩ := l16 h
-    exact ⟨hnil hi _ (Or.inl rfl) a, hest b⟩
+    exact ⟨hnilr h a b, hest b⟩
   · intro h
     have hi := ni_of_true h rfl
     rw [hg hi, hng (Or.inr (Or.inr (Or.inl h)))]
     obtain ⟨a, b, c, d, e⟩ := l17 h
-    exact ⟨hclg hi _ a, b, hnil hi _ (Or.inr rfl) c, d, e⟩
+    exact ⟨hclg hi _ a, b, hnila h c, d, e⟩
   · intro h
     have hi : y.pc ≠ .idle := by rw [h]; simp
     rw [hg hi]; obtain ⟨a, b⟩ := l18 h; exact ⟨hclg hi _ a, b⟩
@@ -94,7 +95,8 @@ theorem TLoc_congr {σ σ' : St} {y : Th} (h : σ'.htab = σ.htab) (hest : σ.es
   · intro _ ha; rw [h1]; exact ha
   · intro _ s ha; rw [h2]; exact ha
   · intro _ s ha; rw [h2]; exact ha
-  · intro _ s _ hs; rw [h2]; exact hs
+  · intro _ hs _; rw [h2]; exact hs
+  · intro _ hs; rw [h2]; exact hs
   · exact hest
   · intro _ hs; rw [h2]; exact hs
 
